@@ -22,6 +22,11 @@
  * Oracles (all evaluated on the recorded total order / on the kernel's own state):
  *   - no event handler start after dispatch_source_cancel was CALLED from the handler or from an item on the
  *     serial target queue; at most one after a cancel issued elsewhere (or cancel_and_wait) RETURNED;
+ *     (own context = the event handler, the REGISTRATION handler - it runs on the target queue as part of the source's
+ *     invoke - and items on the serial target queue);
+ *   - the registration handler runs at most once, on the target queue, before the first event handler invocation, never
+ *     on a cancelled source; scenarios make an event pending BEFORE it runs (data merged before activation or inside
+ *     it, descriptor already readable / writable, signal already raised) and let it cancel / merge / do both;
  *   - the event handler never runs on two threads, always on the target queue (dispatch_get_specific + current queue);
  *   - the cancel handler runs exactly once (waited for without a time bound: a hang is detected by the watchdog),
  *     on the target queue, after the last event handler end, never followed by an event handler start, with
@@ -49,12 +54,17 @@ static const char *KNAME[] = { "data", "data", "timer", "fd", "fd", "fd", "fd", 
 static const char *KLONG[] = { "data_add", "data_or", "timer", "read_pipe", "read_sock", "write_pipe", "write_sock", "signal" };
 /* cancellation modes (life-cycle point x context) */
 enum { M_PRE, M_PRE_TWICE, M_HANDLER, M_TQITEM, M_FOREIGN, M_FOREIGN_TWICE, M_HANDLER_AND_FOREIGN, M_CAW, M_CAW_PRE,
-       M_SUSPENDED, M_HANGUP_RACE, M_CAW_HANGUP, M_N };
+       M_SUSPENDED, M_HANGUP_RACE, M_CAW_HANGUP,
+       /* registration handler (runs once on the target queue as part of the source's invoke, after installation and
+        * before the first event delivery) with an event ALREADY pending: it cancels its own source / merges data
+        * (then a foreign thread cancels) / merges and cancels */
+       M_REG_CANCEL, M_REG_MERGE, M_REG_MERGE_CANCEL, M_N };
 static const char *MNAME[] = { "pre_activation", "pre_activation_twice", "from_handler", "from_target_queue_item", "foreign",
        "foreign_twice", "handler_and_foreign", "cancel_and_wait", "cancel_and_wait_pre_activation", "while_suspended",
-       "hangup_race", "cancel_and_wait_hangup_race" };
-enum { CTX_MAIN_PRE = 0, CTX_HANDLER = 1, CTX_TQITEM = 2, CTX_FOREIGN = 3, CTX_CAW = 4, CTX_MAIN = 5 };
-static const char *CTXNAME[] = { "pre", "handler", "tqitem", "foreign", "caw", "foreign" };
+       "hangup_race", "cancel_and_wait_hangup_race", "from_registration_handler", "registration_handler_merges",
+       "registration_handler_merges_and_cancels" };
+enum { CTX_MAIN_PRE = 0, CTX_HANDLER = 1, CTX_TQITEM = 2, CTX_FOREIGN = 3, CTX_CAW = 4, CTX_MAIN = 5, CTX_REGH = 6 };
+static const char *CTXNAME[] = { "pre", "handler", "tqitem", "foreign", "caw", "foreign", "reghandler" };
 
 #define MAXH 512
 #define MAXC 8
@@ -76,7 +86,7 @@ typedef struct exec_s {
 	_Atomic int handler_cancelled;
 	dispatch_semaphore_t ch_sem, h_sem, new_sem, fin_sem;
 	dispatch_source_t ds2;
-	_Atomic int new_events, old_after_recycle, steered_late;
+	_Atomic int new_events, old_after_recycle, steered_late, regstarts, regrunning, pending_at_reg;
 	int recycled;
 } exec_t;
 
@@ -86,6 +96,7 @@ static _Atomic int g_fail;
 static exec_t *g_cur;
 static pthread_t g_prod_th, g_canc_th;
 static _Atomic int g_prod_go, g_canc_go, g_threads_exit;
+static _Atomic long g_stat_reg_cancel_pending;
 static _Atomic long g_stat_late1, g_stat_running_at_caw, g_stat_late_caw, g_stat_hangup_deleted;
 static int g_epfd = -1;
 static char g_key;
@@ -194,7 +205,9 @@ static int on_target(exec_t *x)
 static void do_cancel(exec_t *x, int ctx)
 {
 	int i = atomic_fetch_add(&x->ncancel, 1);
-	int own = ctx == CTX_HANDLER || (ctx == CTX_TQITEM && x->serial);
+	/* own context: the source's own handlers (event and registration handler: both run on the target queue as part of
+	 * the source's invoke) and items on its SERIAL target queue */
+	int own = ctx == CTX_HANDLER || ctx == CTX_REGH || (ctx == CTX_TQITEM && x->serial);
 	uint64_t c = vrt_api("CancelCall", x->obj, x->id, ctx, own);
 	if (own) { uint64_t z = 0; atomic_compare_exchange_strong(&x->own_cancel_call, &z, c); }
 	dispatch_source_cancel(x->ds);
@@ -275,6 +288,7 @@ static void ev_handler(void *ctx)
 	if (r != 0) oracle_fail(x, "event handler running on two threads at once", r, n);
 	if (!on) oracle_fail(x, "event handler not on the target queue", n, 0);
 	if (atomic_load(&x->chstarts) > 0) oracle_fail(x, "event handler started after the cancel handler", n, 0);
+	if (atomic_load(&x->regrunning)) oracle_fail(x, "event handler started while the registration handler was running", n, 0);
 	if (x->recycled) { atomic_fetch_add(&x->old_after_recycle, 1); oracle_fail(x, "event delivered to the cancelled source after its descriptor was recycled (stale registration)", n, 0); }
 	uint64_t oc = atomic_load(&x->own_cancel_call);
 	if (oc && s > oc) {
@@ -356,6 +370,39 @@ static void cancel_handler(void *ctx)
 	dispatch_semaphore_signal(x->ch_sem);
 }
 
+static int is_reg_mode(int m) { return m == M_REG_CANCEL || m == M_REG_MERGE || m == M_REG_MERGE_CANCEL; }
+static int is_datakind(int k) { return k == K_DATA_ADD || k == K_DATA_OR; }
+
+static void reg_handler(void *ctx)
+{
+	exec_t *x = ctx;
+	int on = on_target(x);
+	int n = atomic_fetch_add(&x->regstarts, 1) + 1;
+	atomic_store(&x->regrunning, 1);
+	vrt_api("RStart", x->obj, x->id, on, n);
+	if (atomic_load(&x->closed)) oracle_fail(x, "registration handler invoked after the execution was finished", n, 0);
+	if (n != 1) oracle_fail(x, "registration handler invoked more than once", n, 0);
+	if (!on) oracle_fail(x, "registration handler not on the target queue", 0, 0);
+	if (atomic_load(&x->hstarts)) oracle_fail(x, "registration handler invoked after an event handler invocation", atomic_load(&x->hstarts), 0);
+	if (atomic_load(&x->chstarts)) oracle_fail(x, "registration handler invoked after the cancel handler", 0, 0);
+	if (dispatch_source_testcancel(x->ds)) oracle_fail(x, "registration handler invoked on a cancelled source", 0, 0);
+	/* make sure an event is pending: merge it ourselves (data), or let the manager deliver the one that is already
+	 * due (descriptor readable / writable, signal raised) - bounded, and fine if it does not arrive (timers) */
+	if (is_datakind(x->kind) && x->mode != M_REG_CANCEL) {
+		dispatch_source_merge_data(x->ds, 1);
+		if (vrt_rand() & 1) dispatch_source_merge_data(x->ds, 2);
+	}
+	for (int i = 0; i < 200 && !x->dr->ds_pending_data; i++) usleep(50);
+	if (x->dr->ds_pending_data) atomic_store(&x->pending_at_reg, 1);
+	if (x->mode == M_REG_CANCEL || x->mode == M_REG_MERGE_CANCEL) {
+		do_cancel(x, CTX_REGH);
+		if (vrt_rand() % 3 == 0) do_cancel(x, CTX_REGH);
+	}
+	if (vrt_rand() & 1) { volatile int z = 0; int k = (int)(vrt_rand() % 2000); for (int i = 0; i < k; i++) z++; }
+	atomic_store(&x->regrunning, 0);
+	vrt_api("REnd", x->obj, x->id, on, n);
+}
+
 static void finalizer_fn(void *ctx) { exec_t *x = ctx; dispatch_semaphore_signal(x->fin_sem); }
 static void citem_fn(void *ctx) { exec_t *x = ctx; do_cancel(x, CTX_TQITEM); }
 static void nop_fn(void *ctx) { (void)ctx; }
@@ -427,7 +474,7 @@ static void *canceller(void *arg)
 		if (atomic_load(&g_threads_exit)) return NULL;
 		exec_t *x = g_cur;
 		switch (x->mode) {
-		case M_FOREIGN: case M_FOREIGN_TWICE: case M_HANDLER_AND_FOREIGN: case M_HANGUP_RACE:
+		case M_FOREIGN: case M_FOREIGN_TWICE: case M_HANDLER_AND_FOREIGN: case M_HANGUP_RACE: case M_REG_MERGE:
 			wait_handler_runs(x, (int)(vrt_rand() % 4), 3000);
 			usleep((unsigned)(vrt_rand() % 400));
 			do_cancel(x, CTX_FOREIGN);
@@ -489,7 +536,8 @@ static void proj(FILE *f, const vrt_rec_t *r)
 	case VRT_API:
 		if (!strcmp(r->name, "CancelCall") || !strcmp(r->name, "CancelRet"))
 			fprintf(f, "{\"e\":\"%s\",\"t\":%d,\"ctx\":\"%s\",\"own\":%s,\"n\":%llu}\n", r->name, r->tid, CTXNAME[r->b], r->c ? "true" : "false", (unsigned long long)r->seq);
-		else if (!strcmp(r->name, "HStart") || !strcmp(r->name, "HEnd") || !strcmp(r->name, "ChStart") || !strcmp(r->name, "ChEnd"))
+		else if (!strcmp(r->name, "HStart") || !strcmp(r->name, "HEnd") || !strcmp(r->name, "ChStart") || !strcmp(r->name, "ChEnd") ||
+				!strcmp(r->name, "RStart") || !strcmp(r->name, "REnd"))
 			fprintf(f, "{\"e\":\"%s\",\"t\":%d,\"on\":%s,\"k\":%ld,\"n\":%llu}\n", r->name, r->tid, r->b ? "true" : "false", r->c, (unsigned long long)r->seq);
 		else
 			fprintf(f, "{\"e\":\"%s\",\"t\":%d,\"a\":%ld,\"b\":%ld,\"n\":%llu}\n", r->name, r->tid, r->b, r->c, (unsigned long long)r->seq);
@@ -582,6 +630,12 @@ static void run_one(int id)
 	dispatch_source_set_event_handler_f(x->ds, ev_handler);
 	dispatch_set_finalizer_f(x->ds, finalizer_fn);
 	if (x->has_ch) dispatch_source_set_cancel_handler_f(x->ds, cancel_handler);
+	if (is_reg_mode(x->mode)) {
+		dispatch_source_set_registration_handler_f(x->ds, reg_handler);
+		/* an event is already due when the source gets registered */
+		if (x->kind == K_READ_PIPE || x->kind == K_READ_SOCK) (void)!write(x->peerfd, "p", 1);
+		if (x->kind == K_SIGNAL) kill(getpid(), SIGUSR1);
+	}
 	if (x->kind == K_TIMER) {
 		uint64_t iv = 100000ull + vrt_rand() % 1500000ull;   /* 0.1 .. 1.6 ms */
 		dispatch_source_set_timer(x->ds, dispatch_time(DISPATCH_TIME_NOW, (int64_t)(vrt_rand() % 500000)), iv, 0);
@@ -596,6 +650,8 @@ static void run_one(int id)
 	vrt_pause(0);
 	vrt_mark("Reset", x->kind | (x->mode << 4) | ((long)x->obj << 16), (x->serial ? 1 : 0) | (x->has_ch ? 2 : 0) | ((long)x->robj << 8), id);
 
+	if (is_reg_mode(x->mode) && is_datakind(x->kind) && x->mode == M_REG_CANCEL)
+		dispatch_source_merge_data(x->ds, 1);          /* the event is pending before the source is even activated */
 	/* ---- before activation ---- */
 	if (x->mode == M_PRE || x->mode == M_PRE_TWICE) {
 		do_cancel(x, CTX_MAIN_PRE);
@@ -619,6 +675,7 @@ static void run_one(int id)
 		dispatch_async_f(x->tq, x, citem_fn);
 		break;
 	case M_FOREIGN: case M_FOREIGN_TWICE: case M_HANDLER_AND_FOREIGN: case M_CAW: case M_HANGUP_RACE: case M_CAW_HANGUP:
+	case M_REG_MERGE:
 		atomic_store(&g_canc_go, 1);
 		break;
 	case M_SUSPENDED:
@@ -671,6 +728,11 @@ static void run_one(int id)
 	if (atomic_load(&x->late_after_foreign) == 1) atomic_fetch_add(&g_stat_late1, 1);
 	if (atomic_load(&x->late_after_caw) >= 1) atomic_fetch_add(&g_stat_late_caw, 1);
 	if (atomic_load(&x->running_at_caw_ret)) atomic_fetch_add(&g_stat_running_at_caw, 1);
+	if (is_reg_mode(x->mode)) {
+		if (x->mode != M_REG_MERGE && atomic_load(&x->regstarts) != 1)     /* (a foreign cancel may legitimately pre-empt the callout) */
+			oracle_fail(x, "registration handler count != 1 on a source activated uncancelled", atomic_load(&x->regstarts), 0);
+		if (atomic_load(&x->pending_at_reg) && x->mode != M_REG_MERGE) atomic_fetch_add(&g_stat_reg_cancel_pending, 1);
+	}
 
 	vrt_pause(1);
 	atomic_store(&x->closed, 1);
@@ -715,8 +777,9 @@ int main(int argc, char **argv)
 	pthread_join(g_prod_th, NULL); pthread_join(g_canc_th, NULL);
 	vrt_dump();
 	fprintf(stderr, "records=%zu overflow=%d threads=%d late_after_foreign_cancel=%ld late_after_caw=%ld handler_running_at_caw_ret=%ld "
-			"steered_hangup=%ld steered_late=%ld\n",
+			"steered_hangup=%ld steered_late=%ld reg_cancel_with_event_pending=%ld\n",
 			vrt_count(), vrt_overflowed(), vrt_nthreads(), atomic_load(&g_stat_late1), atomic_load(&g_stat_late_caw),
-			atomic_load(&g_stat_running_at_caw), atomic_load(&g_stat_steer_hup), atomic_load(&g_stat_steer_late));
+			atomic_load(&g_stat_running_at_caw), atomic_load(&g_stat_steer_hup), atomic_load(&g_stat_steer_late),
+			atomic_load(&g_stat_reg_cancel_pending));
 	return atomic_load(&g_fail) ? 2 : 0;
 }
